@@ -155,12 +155,20 @@ func (w *world) whole(t *rt.Tape, trace bool, res *core.Result) *core.Result {
 	opts := gen.CircuitOpts{}
 	if small {
 		opts.MaxGates = 60
+	} else {
+		opts.WideAny = 1100 // a thousand and more input wires: whatever is done per block of labels happens more than once
 	}
 	circ := gen.Circuit(t, opts)
 	in := gen.Inputs(t, circ)
 	kind := twopc.DrawOT(t, w.tier)
 	if small && kind != twopc.OTCO {
 		kind = twopc.OTCO
+	}
+	if circ.Inputs[1].Type.Bits > 64 && (kind == twopc.OTRSA1024 || kind == twopc.OTRSA2048) {
+		kind = twopc.OTCOT // hundreds of RSA transfers would dominate the run
+	}
+	if circ.Inputs.Size() >= 1000 {
+		res.Reach["whole-circuit.thousand-input-wires"]++
 	}
 	tamper := t.Choose(rt.SGen, 4) == 0
 	// In a quarter of the cases the garbler's randomness source delivers short
